@@ -149,9 +149,3 @@ Proof.
   pose proof (find_level_le_max (split_cc T) t) as Hle. fold (find t T) in Hle.
   destruct (N.leb L (tlvl (find t T))) eqn:E2; [|reflexivity]. apply N.leb_le in E2. lia.
 Qed.
-
-(* a facade whose max were taken from the root only WOULD drop admitted records:
-   the theorem above is not vacuous about the "max over all loggers" part *)
-Definition quiet_root_verbose_child : config :=
-  {| c_appenders := [bs "A"]; c_root_level := 1%N; c_root_apps := [bs "A"];
-     c_loggers := [ {| l_name := bs "a::b"; l_level := 5%N; l_additive := true; l_apps := [] |} ] |}.
